@@ -49,6 +49,56 @@ theorem run_panic_safe {sys : Sys K V Q} (hs : SysInv E sys) (ops : List (Op K V
   · have : op = .endCase := by simpa using h
     subst this; rfl
 
+/-! ### `a.extend(b)` with the set `b` moved in
+
+`Extend<T> for Set<T, N>` fed with another set is a loop over TWO containers: the consuming
+iterator owns what is left of `b`, `insert` works on `a`.  If the user's `==` panics inside
+`a.insert(k)` (or `a` is full: the container's own panic), `insert` unwinds — dropping the key
+it was given — and the iterator is dropped during the unwinding, i.e. the rest of `b` is dropped
+(`Model/Sys.lean`, `extendFromLoop`).  The model operation is `Op.set i (.extend_from j)`; it is part
+of the safe API, so `step_inv` / `run_inv` cover it. -/
+
+/-- `extend_from` is in the scope of the system-level theorems. -/
+example (i j : Nat) : (Op.set i (.extend_from j) : Op K V Q).safeApi = true := rfl
+
+/-- **A panic of the user's `==` (or the destination's overflow) in the middle of `a.extend(b)`
+    leaves both sets well-formed and destroys nothing twice.**  From registers satisfying the
+    invariant, with a panic armed at ANY callback `n` (the `n`-th `==` of the scans inside the
+    `insert`s), any user equality, either profile: the step does not reach `ub` — no dead slot of
+    `a` or `b` is read, compared or dropped, in particular the clean-up drop of the rest of `b`
+    touches only live slots, each once — and afterwards EVERY register satisfies the invariant
+    again: `a` (with the keys that went in before the panic), `b` (a fresh `new()`: consumed), and
+    the registers not involved. -/
+theorem extend_from_panic_safe {sys : Sys K V Q} (hs : SysInv E sys) (n : Nat) (i j : Nat) :
+    let armed := (step E R sys (.inject n)).1
+    (step E R armed (.set i (.extend_from j))).2.outcome ≠ .ub ∧
+      SysInv E (step E R armed (.set i (.extend_from j))).1 :=
+  step_panic_safe E R hs n (.set i (.extend_from j)) rfl
+
+/-- … and both sets can be used and dropped normally afterwards: any further history (more
+    operations, more injected panics) and the final drops of all registers never reach `ub` — no
+    element of `a` or `b` is destroyed a second time "later". -/
+theorem extend_from_panic_then_any_history {sys : Sys K V Q} (hs : SysInv E sys) (n : Nat) (i j : Nat)
+    (ops : List (Op K V Q)) (hops : ∀ op, op ∈ ops → op.safeApi = true) :
+    (∀ o, o ∈ (run E R sys (.inject n :: .set i (.extend_from j) :: ops ++ [.endCase])).2 → o.outcome ≠ .ub) ∧
+    SysInv E (run E R sys (.inject n :: .set i (.extend_from j) :: ops ++ [.endCase])).1 := by
+  refine run_panic_safe E R hs (.inject n :: .set i (.extend_from j) :: ops) ?_
+  intro op hop
+  simp only [List.mem_cons] at hop
+  rcases hop with rfl | rfl | h
+  · rfl
+  · rfl
+  · exact hops op h
+
+/-- the loop itself, on the pair (source, destination), in ANY world: whether it returns or
+    unwinds (injected panic inside `insert`, or overflow), both registers satisfy the invariant and
+    keep their capacities; it never reaches `ub` — the clean-up drop runs in unwinding mode and
+    completes. -/
+theorem extend_from_loop_safe (F : Env K Unit Q) (fuel : Nat) {rs : Raw K Unit} {sd : St K Unit Q}
+    (hsrc : Inv F rs) (hdst : Inv F sd.r) :
+    PairInv F rs.cap sd.r.cap (extendFromLoop F fuel rs sd) :=
+  extendFromLoop_inv F fuel rs sd hsrc hdst
+
 /-- per container operation: the triple of `clear` (repaired): whether it returns or a `Drop`
     unwinds, the map is empty and well-formed — the old elements are never reachable again. -/
 theorem clear_exception_safe {s : St K V Q} {l : List (K × V)} (hr : Rep s.r l) :
@@ -132,5 +182,30 @@ example : (step (K := Nat) (V := Nat) (Q := Nat)
       clK := fun _ k => k, clV := fun _ v => v }
     { dbgK := fun _ => toString, dbgV := fun _ => toString, dspK := toString, dspV := toString }
     (Sys.init (fun _ => 2) (fun _ => 2) {}) (.inject 0)).1.w.inject = some 0 := rfl
+
+/-- the scenario of the driver script: `a = {0}` (capacity 2), `b = {1, 10, 3}` with `10 ≡ 0`; the
+    second `==` of `a.extend(b)` panics (inside the `insert` of `10`).  The step unwinds with the
+    injected panic; `a` holds two elements (`3` went in before), `b` is empty, and the final drop of
+    all registers is clean (no `ub`, nothing leaked). -/
+def xEnv : Env Nat Nat Nat :=
+  { eqK := fun _ a b => a % 10 == b % 10, eqQ := fun _ a b => a % 10 == b % 10, eqV := fun a b => a == b,
+    borrow := id, clK := fun _ k => k, clV := fun _ v => v }
+
+def xR : Render Nat Nat :=
+  { dbgK := fun _ _ => "", dbgV := fun _ _ => "", dspK := fun _ => "", dspV := fun _ => "" }
+
+def xOps : List (Op Nat Nat Nat) :=
+  [.set 0 (.insert 0), .set 1 (.insert 1), .set 1 (.insert 10), .set 1 (.insert 3), .inject 1,
+   .set 0 (.extend_from 1), .endCase]
+
+example :
+    let r := run xEnv xR (Sys.init (fun _ => 0) (fun i => if i = 0 then 2 else 3) {}) xOps
+    (r.2.map (·.outcome) = [.ok, .ok, .ok, .ok, .ok, .panic .inject, .ok]) ∧
+    (r.2.map (·.leaks.length)).getLast? = some 0 := by decide +kernel
+
+example :
+    let r := run xEnv xR (Sys.init (fun _ => 0) (fun i => if i = 0 then 2 else 3) {}) xOps.dropLast
+    ((r.1.sets 0).len, (r.1.sets 1).len, (r.1.sets 0).slots 1, (r.1.sets 1).slots 0) =
+      (2, 0, some (3, ()), none) := by decide +kernel
 
 end Micromap.Props.C04
